@@ -350,10 +350,13 @@ PROPS = {
                       "the CNF (compileCnf_correct; empty formula, empty clauses, units, repeated/complementary literals included), compiling under a "
                       "partial assignment denotes the restricted CNF for every merge strategy and is the SAME diagram as compile-then-condition "
                       "(compileWithAssign_eq_condition, via canonicity), expressions and plans compile to their semantics, the plan of a dtree is "
-                      "the conjunction of its leaf clauses (planFromDtree_sem, compileDtree_eq_compileCnf). SDD operations used by the SDD compile "
-                      "functions are correct by C03's theorems.",
-        "level_note": "Trusted: Lean kernel; allowed axioms; harness+driver. The SDD compile drivers (compile_cnf/compile_logical_expr/compile_plan over "
-                      "SddBuilder) are validated by correspondence against the input text; their building blocks are proved in C03.",
+                      "the conjunction of its leaf clauses (planFromDtree_sem, compileDtree_eq_compileCnf). SDD builder, every vtree, both compression settings, every lawful cache "
+                      "pair, every fuel: compile_cnf of any permutation of the clauses, compile_logical_expr, compile_plan and the plan of a dtree denote "
+                      "their input, incl. the empty formula and empty clauses (sdd_compileCnf_correct, sdd_compileCnf_empty, sdd_compileCnf_empty_clause, "
+                      "sdd_compileExpr_correct, sdd_compilePlan_correct, sdd_compileDtree_correct); with compression on the result is well formed and the "
+                      "same node whatever the clause order, cache or fuel (sdd_compileCnf_perm_irrelevant, sdd_compileDtree_eq_compileCnf).",
+        "level_note": "Trusted: Lean kernel; allowed axioms; harness+driver. The SDD compile drivers are mirrored (Model/SddCompile.lean) and the comp stream "
+                      "compares their canonical output with the implementation's; compiling under a partial assignment exists for the BDD builder only.",
         "explanation": "C05Bdd.* theorems; comp stream: implementation vs truth table of the input text, vs the mirrored compile functions (exact diagrams).",
     },
     "C06": {
